@@ -274,7 +274,36 @@ func c16Run(r *core.Run) {
 			}
 		}
 	}
+	// deep and long JSON values: arrays and objects nested n deep, strings and keys made of n structural characters,
+	// n-element arrays, n-digit numbers - for every n up to 70 and around every power of two up to 4096
+	big := c16BigValues()
+	r.Bound("deep_and_long_json_values", len(big))
+	for i, v := range big {
+		if !r.Mine(i) || r.Expired() {
+			continue
+		}
+		if viol := c16CheckValue(r, v, ""); viol != nil {
+			r.Violate(viol)
+		}
+	}
 }
+
+func c16BigValues() []string {
+	var sizes []int
+	for n := 1; n <= 70; n++ {
+		sizes = append(sizes, n)
+	}
+	sizes = append(sizes, 100, 127, 128, 129, 200, 255, 256, 257, 511, 512, 513, 1000, 1023, 1024, 1025, 4095, 4096, 4097)
+	rep := strings.Repeat
+	var out []string
+	for _, n := range sizes {
+		out = append(out, rep("[", n)+"1"+rep("]", n), rep(`{"a":`, n)+"null"+rep("}", n), rep(`[{"k":`, n)+`"x"`+rep("}]", n), "["+rep("[],", n)+"[]]", "["+rep("1,", n)+"2]",
+			`["`+rep("[", n)+`"]`, `["`+rep("]", n)+`"]`, `{"`+rep("{", n)+`":"`+rep("[{", n)+`"}`, `"`+rep("[", n)+`"`, `"`+rep(`\\\"`, n)+`"`, `["`+rep(`\\\\`, n)+`"]`, `{"k":"`+rep("}", n)+`","l":[`+rep("[", n%40)+rep("]", n%40)+`]}`,
+			"1"+rep("0", n), "0."+rep("0", n)+"1", "["+rep(`"`+rep("a", n%50)+`",`, n%300)+"0]", `"`+rep("é", n)+`"`, `"`+rep("😀", n)+`"`, `"`+rep(`\u00e9`, n)+`"`, `{"`+rep("k", n)+`":[`+rep("[", n%64)+rep("]", n%64)+`]}`)
+	}
+	return out
+}
+
 
 func c16CheckValue(r *core.Run, v string, ws string) *core.Violation {
 	body := strings.ReplaceAll(v, "`", "\\`")
@@ -295,6 +324,19 @@ func c16CheckValue(r *core.Run, v string, ws string) *core.Violation {
 	want := core.JSONDoc(v)
 	// numbers kept at full precision: compared by exact value (the carrier and its spelling are free)
 	ok := o.Kind == "ok" && core.EqualFast(o.Val, core.Norm(want))
+	if ok {
+		// the same through a compiled expression, on the document null and on an object
+		if e, co := core.Compile(expr); e == nil {
+			o, ok = co, false
+		} else {
+			for _, d := range []any{nil, map[string]any{"a": "b"}} {
+				if o2 := core.ExprSearch(e, d); o2.Key() != o.Key() {
+					o, ok = o2, false
+					break
+				}
+			}
+		}
+	}
 	if ok {
 		return nil
 	}
